@@ -35,6 +35,12 @@ package webrtc
 //                 RTCP readers; V runs the usual OnTrack read loops.
 //   4 planb-mix   Plan-B peer against Unified-Plan / fallback peer with several tracks and media in both directions.
 //
+// Configuration dimension (c30_config_test.go): in phases 0, 1 and 3 the victim is, with fixed probability, a generated
+// application profile (narrow / disjoint / renumbered MediaEngine, header-extension subset, BundlePolicy, RTCPMuxPolicy,
+// SettingEngine switches) instead of the default application; in phase 1 the live peer is sometimes profiled too, and
+// foreign m-sections from the corpus / generator are grafted onto the live peer's offers (and cut out of the victim's
+// answers), so that foreign declarations x codec-negotiation outcomes meet transports that are really up.
+//
 // Oracle: the process stays alive and every call returns. Returned errors are fine and only counted.
 
 import (
@@ -77,7 +83,7 @@ func c30PhaseSize(ph int) (n, chunk int) {
 	case c30PhFresh:
 		return kit.N(10000, 120000), 500
 	case c30PhLive:
-		return kit.N(480, 5000), 8 // x ~6.5 descriptions applied per case
+		return kit.N(560, 5600), 8 // x ~6.5 descriptions applied per case
 	case c30PhCand:
 		return kit.N(400, 4000), 16 // x 50 candidates per case
 	case c30PhPacket:
@@ -312,7 +318,11 @@ func TestVerifC30(t *testing.T) {
 		"genRandomOffer with all options, 0-4 mutators each (line drop/dup/swap, boundary numbers, empty/long values, "+
 		"m= surgery, section dup/shuffle, 330 hostile attribute forms, truncation, byte havoc), applied as offer / answer / "+
 		"pranswer under the three SDPSemantics on fresh, renegotiating and connected PeerConnections; grammar+havoc candidate "+
-		"strings; header-valid RTP and RTCP written through the peer's SRTP session. A case is non-trivial when the input got "+
+		"strings; header-valid RTP and RTCP written through the peer's SRTP session. Configurations: besides the default application, "+
+		"generated application profiles (MediaEngine default / audio-only / video-only / one video codec +-rtx / random subset / permuted "+
+		"payload types / orphan rtx / disjoint codecs / empty, header-extension subsets, BundlePolicy, RTCPMuxPolicy, 19 SettingEngine "+
+		"switches) for the victim and sometimes the live peer, and foreign m-sections (corpus / generator) grafted onto the live peer's "+
+		"offers so that they are negotiated on pairs that really connect and run their background work. A case is non-trivial when the input got "+
 		"past the first syntactic gate (SDP: parsed by pion/sdp; candidate: accepted or ignored by AddICECandidate; packet: "+
 		"encrypted and sent on an established SRTP session); distinct = distinct input bytes + configuration")
 	defer run.Finish()
